@@ -15,7 +15,7 @@ RULE = (
     "relative to the sheet gap, max angle 1..30 degrees, direction 1to2/2to1, the whole configuration moved by a drawn "
     "rigid motion. Oracle: admissible(s,t) := t on the target surface, 0 < |t-s| <= max/voxel, (t-s).n_s > 0 and "
     "angle((t-s), n_s) < max_angle, evaluated by brute force. The result must be a one-to-one partial matching of "
-    "admissible pairs with thickness == |t-s| * voxel (1e-5 relative, float32 storage), no admissible pair with both ends "
+    "admissible pairs with thickness == |t-s| * voxel (5e-7 relative: float32 storage of the result, double precision before that; scenes up to thousands of voxels from the origin), no admissible pair with both ends "
     "unmatched, no matched source with a strictly closer admissible unmatched target, and - when all admissible "
     "distances are distinct - exactly the matching of an independent sort-and-assign greedy reference. Metamorphic: "
     "rigid motion leaves pairing and thickness unchanged; scaling voxel size and max thickness together scales "
@@ -49,7 +49,8 @@ def strategy_case(draw):
         "max_angle": draw(st.one_of(st.floats(1.0, 30.0, allow_nan=False), st.sampled_from([5.0, 10.0, 30.0]))),
         "direction": draw(st.sampled_from(["1to2", "2to1"])),
         "q": draw(gen.euler()),
-        "t": [draw(gen.finite(-50, 50)) for _ in range(3)],
+        "t": [draw(st.one_of(gen.finite(-50, 50), gen.finite(-3000, 3000))) for _ in range(3)],
+        "origin": draw(st.sampled_from([0.0, 0.0, 400.0, 2500.0])),
         "scale": draw(st.sampled_from([2.0, 0.5, 3.7])),
     }
 
@@ -119,7 +120,7 @@ def build(c):
         T = oracle.R_cc(0.0, 35.0, 20.0)
         P, N = P @ T.T, N @ T.T
     perm = rng.permutation(len(P))
-    return P[perm], N[perm], lab[perm]
+    return P[perm] + c.get("origin", 0.0), N[perm], lab[perm]
 
 
 def admissible(P, N, src, tgt, maxv, cosmax):
@@ -210,7 +211,7 @@ def run(case):
             why = "beyond_max_thickness" if d > maxv else ("behind_the_source" if proj <= 0 else "outside_cone")
             out.fail(f"inadmissible_pair:{why}", f"source {s} -> target {t}: distance {d:.4f} (max {maxv:.4f}), angle to normal {a_:.2f} deg (max {ang})")
             return out
-        if abs(float(th[s]) - d * vox) > 1e-5 * max(1.0, d * vox):
+        if abs(float(th[s]) - d * vox) > 5e-7 * max(1e-3, d * vox):
             out.fail("thickness_not_distance_times_voxel", f"source {s}: {float(th[s])!r} vs {d * vox!r}")
             return out
     if len(set(matched.values())) != len(matched):
@@ -272,7 +273,7 @@ def run(case):
             if not (np.array_equal(np.asarray(r2[1], bool), valid) and np.array_equal(np.asarray(r2[2])[valid], np.asarray(pairs)[valid])):
                 out.fail("pairing_changes_under_rigid_motion", f"{int(np.sum(np.asarray(r2[1], bool) != valid))} points differ")
                 return out
-            out.check(bool(np.all(np.abs(np.asarray(r2[0]) - np.asarray(th)) <= 1e-5 * np.maximum(1.0, np.abs(th)))), "thickness_changes_under_rigid_motion", "")
+            out.check(bool(np.all(np.abs(np.asarray(r2[0]) - np.asarray(th)) <= 1e-6 * np.maximum(1.0, np.abs(th)))), "thickness_changes_under_rigid_motion", "")
     k = float(c["scale"])
     if abs((max_nm * k) / (vox * k) - maxv) <= 1e-12 * maxv:
         r3 = measure(P, N, s1, s2, vox * k, max_nm * k, c["direction"])
